@@ -901,6 +901,11 @@ def gen_dag_model(draw, ncells=(4, 7), items=True, uncached=True, none_points=Fa
         if form == "deflines":
             c["terms"] = terms
             c["guards"] = [draw(st.sampled_from([0, 0, 1, 2])) for _ in terms]
+            calls = [j for j, t in enumerate(terms) if t[0] == "call"]
+            if len(calls) >= 2 and draw(st.integers(0, 2)) == 0:
+                # the finally block around one call evaluates the callee of a LATER term for the first time
+                i, j = calls[0], calls[-1]
+                c["guards"][i] = [3, terms[j]]
         emit(["new_cells", p, c])
         cells.append((p, c["name"], nparams))
     return ops, G, {"cells": cells, "top": cells[-1]}
